@@ -18,6 +18,7 @@
 #define __TBB_cache_aligned_allocator_H
 
 #include "detail/_utils.h"
+#include "detail/_exception.h"
 #include "detail/_namespace_injection.h"
 #include <cstdlib>
 #include <utility>
@@ -51,6 +52,10 @@ public:
 
     //! Allocate space for n objects, starting on a cache/sector line.
     __TBB_nodiscard T* allocate(std::size_t n) {
+        // n * sizeof(value_type) must be representable: a wrapped product would be served by a tiny block
+        if (n > ~std::size_t(0) / sizeof(value_type)) {
+            throw_exception(exception_id::bad_alloc);
+        }
         return static_cast<T*>(r1::cache_aligned_allocate(n * sizeof(value_type)));
     }
 
